@@ -36,20 +36,20 @@ ATTR_OF_SIDE = {0: "start", 1: "end"}
 
 def check(ctx):
     g = gc.build(ctx, "R14")
-    r14_1(ctx, g)
-    c15.r15_2(ctx, g)  # both ends are filled / emptied on every path
-    r14_2_3(ctx, g)
-    r14_4(ctx)
+    ctx.run(r14_1, g)
+    ctx.run(c15.r15_2, g)  # both ends are filled / emptied on every path
+    ctx.run(r14_2_3, g)
+    ctx.run(r14_4)
     from . import c06
 
-    c06.r06_6(ctx)  # every declared link is loaded, wherever its L line stands in the file (a walk over a dropped link spells nothing)
+    ctx.run(c06.r06_6)  # every declared link is loaded, wherever its L line stands in the file (a walk over a dropped link spells nothing)
     ctx.not_decided.append("tokenisation of unusual node names by re.findall('[><][^><]+') (names containing '>' or '<' are not valid GFA ids)")
     # mechanisms this property rests on (see shared.py): a change there is reported here as well
     from . import shared as _sh
 
-    _sh.path_tokenisers(ctx)
-    _sh.graph_loader(ctx)
-    _sh.cli_layer(ctx, "gaftools.cli.find_path")
+    ctx.run(_sh.path_tokenisers)
+    ctx.run(_sh.graph_loader)
+    ctx.run(_sh.cli_layer, "gaftools.cli.find_path")
 
 
 def r14_1(ctx, g):
